@@ -12,56 +12,64 @@ TEXT = {
     'C01': ('safe-option identity (docs index = signature defaults = CLI defaults), the fixed order of the pipeline, and producer-before-reader typestate of '
             'every tree annotation, decided from the source of minify(); observable equivalence of the two programs is NOT decided',
             'table agreement (docs/signature), dominance over path facts, effect summaries over the call graph'),
-    'C02': ('every (printer slot, child class) pair of the ASDL is enumerated: the printer methods are abstractly interpreted on class descriptors and must '
-            'parenthesise wherever CPython\'s own parser (probed with generated text) requires it; handler/dispatch exhaustiveness, precedence-table order '
-            'isomorphism with the parser, token-separation table vs tokenizer probes, statement layout; spelling of literal values is NOT decided',
-            'finite-domain enumeration by abstract interpretation of the printer + parser/tokenizer probe oracles + exhaustiveness over the ASDL'),
-    'C03': ('binding-form exhaustiveness over ASDL identifier fields, agreement of binder/renamer/printer fields, namespace of every syntactic slot vs symtable '
-            'probes, reservation-walk invariant, guards of the name-assignment loop, filtered name stream; the reservation algorithm itself is NOT decided',
-            'exhaustiveness + sibling agreement + symtable probe oracle + path facts'),
-    'C04': ('who-may-write rule on identifier fields, pins on all paths that hand out a binding, abstract enumeration of arg_rename_in_place over argument '
-            'shapes, global gate and underscore prefix; leakage through data rather than a missing gate is NOT decided',
-            'ownership rule over stores, path facts, finite enumeration by abstract interpretation'),
-    'C05': ('every tree-rewriting stage is gated by its own option, rewrite sites carry their side-condition facts, statement lists are routed and never '
-            'emptied, scope-classification predicates enumerated over nesting shapes; bisimilarity of compiled code is NOT decided',
-            'path facts at effect sites + effect summaries + ASDL exhaustiveness + abstract enumeration'),
+    'C02': ('every (printer slot, child class) cell of the ASDL, statement layouts, token adjacencies, literal spellings and match patterns are enumerated: the '
+            'printer classes are run by the abstract interpreter on descriptor trees of probe programs and the text must parse back (CPython parser as '
+            'oracle) to the identical tree; handler/dispatch exhaustiveness over the ASDL; literal values beyond the systematic grids are NOT decided',
+            'finite-domain enumeration by abstract interpretation of the printer + parser oracle + exhaustiveness over the ASDL'),
+    'C03': ('namespace of every syntactic slot and the binding scope of every name (mapper, binder, resolver run abstractly on probe programs) vs symtable; every '
+            'binding form bound, renamed, costed and printed from the same field (the printer is run on renamed probes); reservation discipline of the '
+            'assignment loop; filtered name stream; the reservation algorithm beyond its invariants is NOT decided',
+            'abstract interpretation of mapper/binder/resolver/printer on probe programs + symtable oracle + path facts'),
+    'C04': ('Binding.rename evaluated on a reference node of every ASDL class with an identifier field: external fields unchanged, keyword-callable parameters keep '
+            'their spelling; pins on all paths that hand out a binding (enumerated); arg_rename_in_place over 1240 argument shapes; the name-assignment loop '
+            'evaluated on 48 scenarios: underscore prefix exactly under prefix_globals; who-may-write rule on identifier fields; leakage through data is NOT decided',
+            'abstract interpretation of the renamer over enumerated reference kinds and scenarios + ownership rule over stores'),
+    'C05': ('minify() itself is evaluated with every stage replaced by a recorder: each rewriting stage runs exactly under its own option; every transformer is '
+            'abstractly run on enumerated statement lists / test shapes / nesting shapes and must remove exactly the documented construct; unconditional stages '
+            'are annotation-only (effect summaries); bisimilarity of compiled code is NOT decided',
+            'abstract interpretation of the driver and of each transformer over finite syntactic domains + effect summaries + ASDL exhaustiveness'),
     'C06': ('insertion point guards, type-aware key, value-node identity, exclusion sites, placement namespaces, candidate kinds; alias uniqueness is NOT decided',
             'path facts, provenance of constructed nodes, abstract enumeration of insert() over suite shapes'),
-    'C07': ('the single replacement site carries all eight guard facts, strict type test enumerated over exemplar value pairs, broad handlers around both '
-            'evaluations; numeric equality for all operands is delegated to the run-time comparison whose presence and strictness are decided',
-            'path facts at the replacement site + abstract enumeration of equal_value_and_type'),
-    'C08': ('handler and dispatch exhaustiveness over the ASDL, SyntaxError pass-through, error discipline at fallible evaluation sites, int-to-decimal '
-            'hazard; absence of implicit exceptions in general is NOT decided',
-            'exhaustiveness over the ASDL + path facts (try coverage) + the C02 enumeration re-reported'),
-    'C09': ('trigger table vs builtins, and under the hypothesis "module tainted" no name-changing stage is reachable with permission; taint writes are '
-            'monotone and reads are dominated by resolution',
-            'path facts under hypothesis + effect summaries + table agreement'),
-    'C10': ('wiring of both preserve lists to their three consumers, normalisation arms, membership implies pin, reserved globals, __all__ feeding, '
-            'AWS entrypoint wiring; "nothing else changes" is NOT decided',
-            'def-use provenance of call arguments + path facts'),
+    'C07': ('the folding transform is run abstractly on every operand-kind pair x operator and on nested forms, the folded module is printed by the repository\'s '
+            'printer (abstractly) and parsed back: identical type/value/exception, strictly shorter, integer division and failing evaluations left alone; '
+            'equal_value_and_type enumerated over exemplar pairs; operand values beyond the enumerated kinds are NOT decided',
+            'finite-domain enumeration by abstract interpretation of the transform and the printer, evaluated against the interpreter\'s own arithmetic on literal-only trees'),
+    'C08': ('handler and dispatch exhaustiveness over the ASDL, SyntaxError pass-through, error discipline at fallible evaluation sites (f-string candidates by path '
+            'facts, folding by enumeration of failing arithmetic), reduced printer cells incl. huge integers; absence of implicit exceptions in general is NOT decided',
+            'exhaustiveness over the ASDL + path facts (try coverage) + the C02/C07 enumerations re-reported'),
+    'C09': ('trigger positions (whole bind+resolve run on probe programs), and under the hypothesis "module tainted" no name-changing stage is reachable with '
+            'permission; gates evaluated with the switch off; taint writes monotone, reads dominated by resolution',
+            'abstract interpretation on probe programs + path facts under hypothesis + effect summaries'),
+    'C10': ('minify() evaluated with recorders: the three consumers receive the caller\'s names (None / str / list / tuple spellings) plus the binder-preserved names, '
+            'the caller\'s list is untouched; membership implies pin (gates evaluated); reserved globals; __all__ forms; AWS entrypoint; "nothing else changes" is NOT decided',
+            'abstract interpretation of the driver and the gates over enumerated argument spellings + path facts'),
     'C11': ('no in-place mutation of any caller argument (followed through callee summaries), no write to module/class level state from reachable code, '
             'set-typed values consumed only order-insensitively, no nondeterminism source reachable; true thread interleavings beyond absence of shared writable '
             'state are NOT decided',
             'effect (purity) summaries over the receiver-sensitive call graph'),
-    'C12': ('inventory and reachability of every dynamic-execution sink, provenance idiom per sink (quote + escaped text + quote; literal-only operands; empty '
-            'namespaces), escape tables cover quote and backslash, no I/O outside the CLI module; correctness of escaping for every string is NOT decided',
-            'who-may-call rule + provenance dataflow to each sink + escape-table check'),
-    'C13': ('flag -> dest -> keyword chain followed statically, an argparse parser rebuilt from the extracted specs is probed for defaults / single flags / '
-            'pairs, forwarding completeness, list splitting, validation block enumerated by abstract interpretation, payload provenance at every write, '
-            'documented flags exist',
-            'table agreement via rebuilt-parser probes + def-use flow + abstract enumeration of the validation block'),
-    'C14': ('every value do_minify returns is dominated by the byte-length comparison against the source (or the documented override), operands are bytes, '
-            'every write sink writes either that result or the bytes read, the override is the only environment read',
-            'path facts (dominating comparison) + payload provenance at write sinks'),
-    'C15': ('suffix test on every path yielded from a directory walk, who-may-open-for-write rule, destination opened only after minification of that file '
-            'completed, no swallowing handler; atomicity of the final write is NOT decided',
-            'path facts + ordering (dominance) + ownership of write targets'),
-    'C16': ('source reaches the interpreter\'s parser untouched, binary reads and strict UTF-8 encode in the CLI, shebang arms agree and are gated, every '
-            'decode of input-derived bytes is total or uses the declared encoding, literals spelled through repr; meaning preservation per codec is NOT decided',
-            'provenance flow + sibling agreement of the two shebang arms + path facts'),
-    'C17': ('the three constant-kind classifiers agree on exemplar values of every type, renames and folds happen only under the profitability fact with the '
-            'comparison in the right direction, bindings processed by descending mention count; aggregate accuracy of the cost model on real code is NOT decided',
-            'abstract enumeration of the classifiers + path facts at rename/fold sites'),
+    'C12': ('inventory and reachability of every dynamic-execution sink; what reaches each eval() is decided by running the quoting classes on crafted strings and the '
+            'folding transform on arithmetic over every operand kind (only closed literal text may arrive); wrapper passes fresh empty namespaces; no I/O outside the '
+            'CLI module; dynamic attribute names derive from literals / class names / field names; escaping for every string is NOT decided',
+            'who-may-call rule + abstract interpretation of the code in front of each sink on crafted inputs + derivation dataflow for dynamic attribute names'),
+    'C13': ('main() evaluated end to end in a modelled environment (real argparse driven by the repository\'s calls; file system, stdio, environment and minify() answered '
+            'by the checker): flags -> keyword arguments (none, each alone, annotation vectors, list spellings; thorough: all pairs), 112 validation shapes, output '
+            'modes x per-source answers: payloads, channels, listing; documented flags exist; flag subsets larger than pairs are NOT decided',
+            'abstract interpretation of the entry point over enumerated scenarios, compared with the documented behaviour'),
+    'C14': ('main() evaluated end to end over output modes x answers that are shorter / longer / longer only in bytes / equal, mixed along the file list, with and without '
+            'the override, plus 42 boundary length cases: every destination receives at most len(source) bytes; only environment read is the override',
+            'abstract interpretation of the entry point over enumerated scenarios + syntactic scan for environment reads'),
+    'C15': ('main() evaluated end to end on a modelled directory tree (python and near-miss suffixes, nested and symlinked directories): selection, destinations, binary '
+            'channels, destination opened only after minify() returned, failing / unreadable file or unlistable directory ends the run and later files are untouched; '
+            'no other file-system mutation in the package; atomicity of the final write is NOT decided',
+            'abstract interpretation of the entry point over enumerated scenarios + syntactic scan for file-system mutators'),
+    'C16': ('source reaches the interpreter\'s parser untouched (API by provenance, CLI by end-to-end evaluation on BOM / CR / cookie / undecodable sources), strict UTF-8 '
+            'of what is written, shebang finder evaluated on 16 source shapes for text and bytes, literal emitters evaluated on crafted values, every decode of '
+            'input-derived bytes total or declared; meaning preservation per codec is NOT decided',
+            'provenance flow + abstract interpretation of the shebang finder, the literal emitters and the entry point on crafted inputs'),
+    'C17': ('the three constant-kind classifiers agree on exemplar values of every type; the name-assignment loop evaluated on 48 scenarios renames exactly under the '
+            'profitability answer (or when the original name was given away); cost comparisons point the right way; folds kept only where the printed text gets '
+            'strictly shorter (enumerated with C07); descending mention order; aggregate accuracy of the cost model on real code is NOT decided',
+            'abstract enumeration of classifiers, assignment loop and folding + comparison-direction analysis'),
 }
 
 DESIGN_REF = {p: 'DESIGN.md section 4, ' + p for p in TEXT}
@@ -106,7 +114,7 @@ def main():
         },
         'engines': [{'name': 'pmstatic', 'path': 'pmstatic/', 'serves_properties': built,
                      'kind_free_text': 'repository-specific static analyser: source model + receiver-sensitive call graph + path-fact (must) analysis + effect summaries '
-                                       '+ abstract interpreter over AST-class descriptors + interpreter-derived oracles (ASDL, parser, tokenizer, symtable, argparse probes)'}],
+                                       '+ abstract interpreter over AST-class descriptors, probe programs and modelled environments (CLI, API driver) + interpreter-derived oracles (ASDL, parser, tokenizer, symtable, argparse)'}],
         'checks': checks,
         'not_applicable': [{'property_id': p, 'reason': 'check not built yet in this session (static rules are specified in DESIGN.md section 4)'} for p in not_built],
         'notes': 'All checks are static: they parse /repo/src/python_minifier on every run and never import or execute it. Exit 0 = obligations discharged / known finding, '
